@@ -41,11 +41,29 @@ void _ZNSt8ios_base4InitD1Ev(char* self) { (void)self; }
 uint32_t nondet_u32(void); uint8_t nondet_u8(void);
 uint32_t inet_pton(uint32_t af, char* src, char* dst) {
   __CPROVER_assert(af == 2 || af == 10, "inet_pton: AF_INET or AF_INET6");
-  uint32_t n = af == 2 ? 4 : 16;
+  if (af == 2) {
+    /* exact model for dotted-decimal IPv4 text (the only form libtins' own static initialisers use): d.d.d.d, each 0..255, 1-3 digits */
+    uint32_t val = 0, digits = 0, part = 0, i = 0;
+    uint8_t out[4];
+    __CPROVER_assert(__CPROVER_w_ok(dst, 4), "inet_pton: destination writable for 4 bytes");
+    for (i = 0; i < 16; ++i) {
+      char c = src[i];
+      if (c >= '0' && c <= '9') { val = val * 10 + (uint32_t)(c - '0'); digits++; if (digits > 3 || val > 255) return 0; }
+      else if (c == '.' || c == 0) {
+        if (digits == 0 || part > 3) return 0;
+        out[part++] = (uint8_t)val; val = 0; digits = 0;
+        if (c == 0) break;
+      }
+      else return 0;
+    }
+    if (part != 4 || i == 16) return 0;
+    dst[0] = (char)out[0]; dst[1] = (char)out[1]; dst[2] = (char)out[2]; dst[3] = (char)out[3];
+    return 1;
+  }
   __CPROVER_assert(__CPROVER_r_ok(src, 1), "inet_pton: source string readable");
-  __CPROVER_assert(__CPROVER_w_ok(dst, n), "inet_pton: destination writable for the address size");
+  __CPROVER_assert(__CPROVER_w_ok(dst, 16), "inet_pton: destination writable for the address size");
   uint32_t r = nondet_u32(); __CPROVER_assume(r <= 1);
-  if (r == 1) for (uint32_t i = 0; i < n; ++i) dst[i] = (char)nondet_u8();
+  if (r == 1) for (uint32_t i = 0; i < 16; ++i) dst[i] = (char)nondet_u8();
   return r;
 }
 #endif
